@@ -239,7 +239,7 @@ PLAN = {
     'C05': {'quick': ['V3', 'V3m', 'K12'], 'thorough': ['V3', 'V3m', 'K12']},
     'C12': {'quick': ['V4', 'V5', 'V6', 'V7', 'V11', 'K2', 'K3q'], 'thorough': ['V4', 'V5', 'V6', 'V7', 'V11', 'K2', 'K2y', 'K3q', 'K3t', 'K3a']},
     'C14': {'quick': ['K11', 'K14', 'K14r', 'K14s', 'K14d', 'V14'], 'thorough': ['K11', 'K14', 'K14r', 'K14r8', 'K14s', 'K14d', 'V14']},
-    'C15': {'quick': ['V10', 'V13', 'V3', 'K8'], 'thorough': ['V10', 'V13', 'V3', 'K8', 'K8t']},
+    'C15': {'quick': ['V10', 'V13', 'V3', 'K8q'], 'thorough': ['V10', 'V13', 'V3', 'K8', 'K8t']},
 }
 
 LEVEL = 'proof'
